@@ -831,21 +831,42 @@ func (w *W) opMerge() string {
 		}
 	}
 
-	// known finding O30: next to a "**" option, an explicit option whose path runs through a list index is lost
+	// known finding O30: next to a "**" option, an explicit option whose path runs through a list
+	// index is lost when the node of the option tree that holds the index entry also holds an
+	// explicit named entry (another option with the same prefix that continues with a name)
 	if len(mo.Fields) > 0 {
-		wild, indexed := false, false
+		wild, hit := false, false
+		isIdx := func(x string) bool { _, err := strconv.Atoi(x); return err == nil }
 		for _, fo := range mo.Fields {
 			if fo.Wild {
 				wild = true
+			}
+		}
+		for _, p := range mo.Fields {
+			if p.Wild {
 				continue
 			}
-			for _, x := range fo.Path {
-				if _, err := strconv.Atoi(x); err == nil {
-					indexed = true
+			for i, x := range p.Path {
+				if !isIdx(x) {
+					continue
+				}
+				for _, q := range mo.Fields {
+					if q.Wild || len(q.Path) <= i || isIdx(q.Path[i]) {
+						continue
+					}
+					same := true
+					for j := 0; j < i; j++ {
+						if q.Path[j] != p.Path[j] {
+							same = false
+						}
+					}
+					if same {
+						hit = true
+					}
 				}
 			}
 		}
-		if wild && indexed {
+		if wild && hit {
 			if w.R.Avoid["O30"] {
 				return ""
 			}
